@@ -164,7 +164,7 @@ def build_coq(prop, tier, report):
             if os.path.exists(p):
                 os.remove(p)
     t0 = time.time()
-    r = sh(["timeout", "2400", "make", "-j16"] + vos, cwd=COQ)
+    r = sh(["timeout", "2400", "make", "-Otarget", "-j16"] + vos, cwd=COQ)
     info["make_s"] = round(time.time() - t0, 1)
     info["checker_cmd"] = "make -C coq -j16 %s  (coq_makefile, full .vo build, coqc 8.16.1)" % " ".join(vos)
     log = r.stdout
@@ -175,13 +175,27 @@ def build_coq(prop, tier, report):
         m = re.search(r'File "\./([^"]+)", line (\d+)', log)
         info["broken"] = "%s:%s" % (m.group(1), m.group(2)) if m else targets[0]
         return False
-    # assumptions
+    # assumptions: the blocks printed by Print Assumptions ("Axioms:" followed by one entry per axiom; an
+    # entry starts at column 0 with the qualified name, its type may continue on indented lines)
     axioms = set()
-    for blk in re.finditer(r"Axioms:\n((?:.+\n?)+?)(?=\n\S|\Z)", log):
-        for line in blk.group(1).splitlines():
-            m = re.match(r"^([A-Za-z_][\w.']*) :(?: |$)", line)
-            if m and m.group(1) != "Axioms":
+    in_block = False
+    for line in log.splitlines():
+        if line.strip() == "Axioms:":
+            in_block = True
+            continue
+        if not in_block:
+            continue
+        if line[:1] in (" ", "\t") or not line.strip():
+            continue
+        m = re.match(r"^([A-Za-z_][\w.']*)(?: :.*)?$", line)
+        if m and m.group(1) not in ("Closed", "COQC", "COQDEP", "File", "Warning"):
+            # library axioms are printed with their qualified name; anything declared inside this development
+            # (Axiom, Parameter, Admitted ...) is caught by the source scan above, so an unqualified stray line
+            # of the build log cannot raise a false alarm here
+            if "." in m.group(1):
                 axioms.add(m.group(1))
+        else:
+            in_block = False
     closed = len(re.findall(r"Closed under the global context", log))
     info["axioms"] = sorted(axioms)
     info["closed_theorems"] = closed
